@@ -42,6 +42,10 @@ def check(prog, rep, tier):
                       'parse_attributes with the same class')
     rep.rule('R06.f', 'encoders keep no state: no construct function writes class-level or module-level state '
                       '(an earlier message must not change how a later one is encoded)')
+    rep.rule('R06.g', 'order and multiplicity kept: no standard attribute codec sorts, reverses or de-duplicates a '
+                      'collection of input elements (AS_PATH segments and members, communities, cluster list)')
+    rep.rule('R06.h', 'well-known community names: every name the decoder renders is accepted back by the encoder '
+                      'with the same value')
     rep.assumptions += ['equality of decoded and given values for concrete inputs is not decided (round-trip '
                         'equality over the value space is not a static property)']
 
@@ -79,6 +83,20 @@ def check(prog, rep, tier):
                 expected='withdrawn routes, attributes and NLRI all present', key='Update.construct')
     else:
         rep.ok('R06.a', 'Update.construct', file=f.file, line=f.node.lineno, found='%d path(s)' % npaths)
+
+    # ---------------------------------------------------------------- R06.g / R06.h
+    nf, sites = common.reorder_sites(prog, lambda fn: (
+        fn.module.name.startswith('yabgp.message.attribute') and '.nlri' not in fn.module.name
+        and '.linkstate' not in fn.module.name and '.sr' not in fn.module.name) or fn.module.name == 'yabgp.message.update')
+    for fn, node, what in sites:
+        key = 'reorder:%s:%s' % (fn.qualname, what)
+        rep.bad('R06.g', key, file=fn.file, line=node.lineno, func=fn.qualname,
+                found='%s changes the order / multiplicity of values taken from the input' % what,
+                expected='elements are encoded / decoded in the order given', key=key)
+    if not sites:
+        rep.ok('R06.g', 'order-kept', found='%d codec functions scanned' % nf)
+    rep.floor('R06.g', 'codec functions', nf, 45)
+    common.well_known_names(prog, rep, 'R06.h')
 
     # ---------------------------------------------------------------- R06.f
     from .c10 import shared_state_writes
